@@ -48,4 +48,39 @@ def verdict (D : List Dir) (chain chain' : List Dir) (responsesEqual : Bool) : S
   else if !responsesEqual then "bad:responses-differ:some request is answered differently after reordering"
   else "ok"
 
+/-! ### documented pair orders, probed on the running server (stream `c09.pairs`)
+
+Each scenario is a block with one line of an `outer` and one line of an `inner` directive and one
+request; what the client sees depends only on which of the two handlers wraps the other. -/
+
+structure Scenario where
+  name  : String
+  outer : Dir
+  inner : Dir
+  /-- observation when `outer` wraps `inner` (the documented nesting) -/
+  documented : String
+  /-- observation when `inner` wraps `outer` -/
+  inverted : String
+deriving Repr, DecidableEq
+
+def scenarios : List Scenario := [
+  ⟨"rewrite-before-basicauth", "rewrite", "basicauth", "401", "200"⟩,
+  ⟨"basicauth-before-proxy", "basicauth", "proxy", "401", "200"⟩,
+  ⟨"redir-before-browse", "redir", "browse", "302", "200"⟩,
+  ⟨"internal-before-browse", "internal", "browse", "404", "200"⟩,
+  ⟨"basicauth-before-markdown", "basicauth", "markdown", "401", "200"⟩,
+  ⟨"header-around-proxy", "header", "proxy", "1", "0"⟩,
+  ⟨"errors-around-status", "errors", "status", "1", "0"⟩,
+  ⟨"log-around-proxy", "log", "proxy", "1", "0"⟩,
+  ⟨"gzip-around-proxy", "gzip", "proxy", "1", "0"⟩
+]
+
+/-- what the model predicts for a directive list `D`: decided by the two positions alone -/
+def pairPrediction (D : List Dir) (s : Scenario) : String :=
+  if idx D s.outer < idx D s.inner then s.documented else s.inverted
+
+def pairVerdict (s : Scenario) (observed : String) : String :=
+  if observed = s.documented then "ok"
+  else "bad:documented-order:" ++ s.outer ++ " does not act before/around " ++ s.inner
+
 end Casket.ExecSpec
